@@ -12,9 +12,10 @@ RULE = ("(1) exhaustive: every (filter, topic) pair of strings of 1..D levels ov
         "{a, b, '', +, #, $x, é} (D=4 quick; thorough adds D=5 for valid filter x valid topic), invalid ones included "
         "for the model comparison, valid x valid compared with the extracted spec_match; "
         "(2) exhaustive: every sequence of exactly L set/del operations (all shorter ones are its prefixes) over a "
-        "7-filter universe (L=4 quick, 5 thorough; 6-filter universe L=6 thorough), each set writing a fresh value so "
-        "overwrites are visible, followed by get of every universe filter and of unstored/prefix keys and iter_match of "
-        "7 topics; structural dump of _root (children sorted) compared after every operation, results compared in "
+        "7-filter universe (L=4 quick, 5 thorough; also 4-filter universe L=5 quick, 6-filter universe L=6 thorough), each "
+        "set writing a fresh value so overwrites are visible, each mutation followed by a get and an iter_match, the last one "
+        "by get of every universe filter and of unstored/prefix keys, iter_match of 7 topics and two deletes of unstored "
+        "filters; structural dump of _root (children sorted) compared after every operation, results compared in "
         "yield order with the trie model and (sorted) with the reference dictionary + spec_match; "
         "(3) seeded random: deeper filters/topics over random byte levels (multi-byte UTF-8, '$', empty levels) with "
         "topics derived from the filter, and random op sequences up to length 40 over random universes. "
@@ -114,6 +115,7 @@ def run_pairs(out, filters, topics, label, fchunk=40):
 # ---------------------------------------------------------------- (2) operation sequences
 UNIVERSE7 = ["a", "a/b", "a/b/c", "a/+", "a/#", "+/b", "#"]
 UNIVERSE6 = ["a/b", "a/b/c", "a/+", "+/b/#", "$x/#", "#"]
+UNIVERSE4 = ["a/b", "a/b/c", "a/+", "#"]
 PROBE_KEYS = ["a/b/c/d", "b", "a/b/", "+", ""]
 PROBE_TOPICS = ["a", "a/b", "a/b/c", "b/b", "$x/b", "a/", "x"]
 _OPS = {}
@@ -135,9 +137,10 @@ def with_probes(muts, universe):
         ops.append(m)
         # cheap probes after every mutation, the full set after the last
         if i == len(muts) - 1:
-            ops += [("get", k) for k in universe + PROBE_KEYS] + [("iter", t) for t in PROBE_TOPICS]
+            ops += ([("get", k) for k in universe + PROBE_KEYS] + [("iter", t) for t in PROBE_TOPICS]
+                    + [("del", "zz/zz"), ("del", "a/b/c/d")])
         else:
-            ops += [("get", m[1]), ("iter", "a/b"), ("del", "zz/zz"), ("del", "a/b/c/d")]
+            ops += [("get", m[1]), ("iter", "a/b")]
     return ops
 
 
@@ -392,6 +395,7 @@ def shrink_ops(v):
         sample = readable_sample(MQTTMatcher, ops)
     except Exception as e:
         sample = f"raised {type(e).__name__}: {e}"
+    v["signature"] = "c11-trie-vs-dict"
     v["what"] = f"minimised: {sample}; reference dictionary + spec_match trace: {M.model_ops_batch(M.E_DICT_OPS, [ops], 0)[0]} :: " + v["what"][:300]
     return v
 
@@ -399,7 +403,7 @@ def shrink_ops(v):
 def run(ctx, out):
     out.nontrivial = M.Distinct(out.nontrivial)
     tms, MQTTMatcher = _matcher_api()
-    # corpus: the documented behaviours outside the property, kept as regression samples
+    M.run_corpus(out, "C11", replay)
     m = MQTTMatcher()
     m["a/+"] = 7
     out.sample({"note": "outside valid_topic (theorem C11_wildcard_in_topic_yields_twice)", "filter": "a/+",
@@ -442,7 +446,10 @@ def run(ctx, out):
     L = 4 if ctx.quick else 5
     run_opseqs(out, L, UNIVERSE7, "u7", f"ops_u7_len{L}")
     exhaustive["op_sequences"] = {"universe": UNIVERSE7, "mutations": L}
-    if not ctx.quick:
+    if ctx.quick:
+        run_opseqs(out, 5, UNIVERSE4, "u4", "ops_u4_len5")
+        exhaustive["op_sequences_2"] = {"universe": UNIVERSE4, "mutations": 5}
+    else:
         run_opseqs(out, 6, UNIVERSE6, "u6", "ops_u6_len6")
         exhaustive["op_sequences_2"] = {"universe": UNIVERSE6, "mutations": 6}
     out.sample(readable_sample(MQTTMatcher, with_probes(seq_from_index(1234, L, UNIVERSE7), UNIVERSE7)[:12]))
